@@ -3,6 +3,7 @@ package tree
 import (
 	"bytes"
 	_ "embed"
+	"errors"
 	"fmt"
 	"io"
 	"os"
@@ -58,10 +59,15 @@ func NewHTML(htmlContent utils.ContentInput, baseUrl string, urlFetcher utils.Ur
 
 	var out HTML
 	// html.Parse wraps the <html> tag
-	out.Root = (*utils.HTMLNode)(root.FirstChild)
-	if out.Root.Type == html.DoctypeNode {
-		out.Root = (*utils.HTMLNode)(out.Root.NextSibling)
+	// (a doctype and comments may come before it)
+	rootNode := root.FirstChild
+	for rootNode != nil && rootNode.Type != html.ElementNode {
+		rootNode = rootNode.NextSibling
 	}
+	if rootNode == nil {
+		return nil, errors.New("invalid html input : no root element")
+	}
+	out.Root = (*utils.HTMLNode)(rootNode)
 	out.Root.Parent = nil
 	out.BaseUrl = utils.FindBaseUrl(root, result.BaseUrl)
 	out.UrlFetcher = urlFetcher
